@@ -67,6 +67,30 @@ def run(ctx):
                           " ".join(x["k"] + ("(%s)" % x["ok"] if "ok" in x else "") for x in rr[1:])),
                       {"kind": "sshdproc-scenario", "scenario": rr[0]["sc"], "pid": rr[0]["pid"], "line": rr[0]["line"],
                        "events": rr[1:]})
+    # through the whole worker (FIFO -> named-pipe ingester -> syslog ingester -> processor): a hand-off that has to wait
+    # for a busy correlator (6.5 s, nobody cancels) still delivers the login - scenarios of Pipeline!WorkerScenarios
+    wsc = ctx.tlc("PipelineMC", "Pipeline_scen.cfg", workers=1, timeout=120, name="workerscen")
+    late = [s for s in vlib.tlc_prints(wsc["stdout"], "SCEN")[0] if s["state"] == "sendinglate"]
+    if len(late) != 4:
+        raise Infra("expected 4 late-receiver scenarios, got %d" % len(late))
+    wsp = ctx.path("late.json")
+    json.dump(late, open(wsp, "w"))
+    fd = ctx.path("fifos")
+    import os
+    os.makedirs(fd, exist_ok=True)
+    wtp = ctx.path("trace-late.ndjson")
+    ctx.run([ctx.go_build("./cmd/workers"), "-in", wsp, "-out", wtp, "-dir", fd, "-reps", "1"], timeout=600)
+    wbad, _, _ = sshdfam.validate(ctx, wtp, "late", parts=1, module="PipelineTrace", cfg="PipelineTrace.cfg")
+    for b in wbad:
+        r = b["rec"]
+        if b["what"] == "LoginDropped":
+            ctx.violation("LoginDropped/variant%d" % r["cap"],
+                          "a login (variant %d) blocked in the hand-off for %d ms while the correlator was busy - nobody "
+                          "cancelled - was not delivered when the correlator received again" % (r["cap"], r["stall"]),
+                          {"kind": "worker-scenario", "scenario": {"worker": "S", "state": "sendinglate", "cap": r["cap"],
+                                                                   "stall": r["stall"]}, "observed": r})
+        elif b["what"] == "StateNotReached":
+            raise Infra("late-receiver scenario could not be established")
     # binding self-test: corrupted scenario traces must be rejected
     rnd = random.Random(ctx.seed)
     muts = []
@@ -104,7 +128,7 @@ def run(ctx):
         "states": mc["distinct"], "transitions": mc["generated"],
         "traces_validated_against_impl": len(runs) + nlines,
         "samples": [sample(runs[k]) for k in list(runs)[:: max(1, len(runs) // 4)]][:4],
-        "scenario_scripts": len(scs), "scenario_runs": len(runs), "scenario_events": slines,
+        "late_receiver_worker_runs": len(late), "scenario_scripts": len(scs), "scenario_runs": len(runs), "scenario_events": slines,
         "vector_records": nlines, "vectors": len(vecs),
         "binding_selftest_mutants_rejected": len(muts) + nself,
         "checker_cmd": mc["cmd"], "exhaustive": True,
